@@ -20,7 +20,7 @@ def opt(name, v):
 
 
 def points():
-    for target in ("fn", "mod", "trait"):
+    for target in ("fn", "fnc", "mod", "trait"):
         for macro, uni, api, mockall, export in itertools.product(MACROS, TRI, [False, True], TRI, TRI):
             if target == "trait" and export is not None:
                 continue  # `export` is not an option of trait inputs (rejected; C15/C17 negative corpus)
@@ -30,7 +30,7 @@ def points():
 def oracle(p, feature, test):
     """Transcribed from the property text (not from the macro)."""
     uni = p["unimock"] if p["unimock"] is not None else feature
-    if p["target"] in ("fn", "mod"):
+    if p["target"] in ("fn", "fnc", "mod"):
         uni = uni and p["mock_api"]
     mockall = bool(p["mockall"])
     if p["export"] is not None:
@@ -47,6 +47,10 @@ def source(idx, p):
     if p["target"] == "fn":
         args = ", ".join(["T"] + opts)
         item = "#[%s(%s)] fn f<D>(deps: &D, a: u8) -> u8 { a }" % (p["macro"], args)
+    elif p["target"] == "fnc":
+        # concrete dependency: the trait additionally goes through a nested entrait invocation
+        args = ", ".join(["T"] + opts)
+        item = "pub struct App; #[%s(%s)] fn f(deps: &App, a: u8) -> u8 { a }" % (p["macro"], args)
     elif p["target"] == "mod":
         args = ", ".join(["pub T"] + opts)
         item = "#[%s(%s)] pub mod inner { pub fn f<D>(deps: &D, a: u8) -> u8 { a } }" % (p["macro"], args)
@@ -83,11 +87,16 @@ def run(tier):
         pts = [p for p in allpts if feature or not (p["unimock"] is True and (p["mock_api"] or p["target"] == "trait"))]
         dirname = os.path.join(CACHE, "gen", "c10_%s" % ("f" if feature else "nf"))
         generate(dirname, pts)
-        line0 = 2
+        where = {}
+        with open(os.path.join(dirname, "src", "lib.rs")) as fh:
+            for ln, line in enumerate(fh.read().split("\n"), 1):
+                m = re.match(r"#\[cfg\(not\(skip_p(\d+)\)\)\]", line)
+                if m:
+                    where[ln] = int(m.group(1))
 
-        def attribute(span, n=len(pts)):
-            i = span["line"] - line0
-            return "p%d" % i if 0 <= i < n else None
+        def attribute(span, where=where):
+            i = where.get(span["line"])
+            return "p%d" % i if i is not None else None
         facts, failures, wall = build_with_skips(dirname, "wit_c10", features=("unimock",) if feature else (),
                                                  cfgs=("test",) if test else (), attribute=attribute, max_rounds=5)
         crate = Crate(facts, dirname)
@@ -131,7 +140,7 @@ def run(tier):
             if got_mockall != want["mockall"]:
                 rep.add("W-LATTICE", key + " mockall", "mockall derivation is %s, expected %s" %
                         ("attached" if got_mockall else "absent", "attached" if want["mockall"] else "absent"))
-            if p["target"] != "trait":
+            if p["target"] in ("fn", "mod"):
                 plain = [x for x in impls if not (x["self_ty"].get("t") == "adt" and x["self_ty"]["path"] == UNIMOCK_ADT)]
                 if plain:
                     is_impl = is_impl_adt(plain[0]["self_ty"])
@@ -142,7 +151,7 @@ def run(tier):
     rep.coverage.update({
         "evaluations": evaluations,
         "distinct_nontrivial": len(distinct),
-        "rule": "all points of {entrait, entrait_export} x unimock{absent,true,false} x mock_api{absent,present} x mockall{absent,true,false} x export{absent,true,false} x {fn, mod} plus the same without `export` for trait (252 points), in %d of the 4 configurations {feature} x {cfg(test)}; points that name unimock explicitly without the cargo feature reference a path that does not exist and are excluded there; every point is non-trivial (a distinct option set); observed per point: is there an `impl Trait for unimock::Unimock` (tcx impls), is the stub-mockall marker `MockT` defined, is the impl target T or Impl<T>" % len(configs),
+        "rule": "all points of {entrait, entrait_export} x unimock{absent,true,false} x mock_api{absent,present} x mockall{absent,true,false} x export{absent,true,false} x {fn with generic deps, fn with concrete deps, mod} plus the same without `export` for trait (360 points), in %d of the 4 configurations {feature} x {cfg(test)}; points that name unimock explicitly without the cargo feature reference a path that does not exist and are excluded there; every point is non-trivial (a distinct option set); observed per point: is there an `impl Trait for unimock::Unimock` (tcx impls), is the stub-mockall marker `MockT` defined, is the impl target T or Impl<T>" % len(configs),
         "exhaustive": True,
         "explanation": "oracle transcribed from the property: unimock enabled = explicit value, else cargo feature; for fn/mod additionally mock_api given; mockall enabled = option true; exporting = explicit export value, else macro is entrait_export; a mock derivation is present in a configuration iff enabled and (exporting or cfg(test))",
     })
